@@ -25,7 +25,31 @@ def analyse(prop, repo, tier='quick'):
     """Run the rules of one property; returns the Ctx (raises AnalysisError)."""
     mod = importlib.import_module('pgmverif.rules.' + prop)
     ctx = Ctx(prop, repo, tier)
-    mod.run(ctx)
+    before = set(repo.__dict__.get('_norm_cache', {}))
+    err = None
+    try:
+        mod.run(ctx)
+    except AnalysisError as e:
+        err = e
+    # memo tables whose key does not determine the memoised value (found by the normalising front-end) in the functions this
+    # property looked at: the value computed for one iteration is reused for another
+    n_memo = 0
+    cache = repo.__dict__.get('_norm_cache', {})
+    for key, nf in cache.items():
+        if not nf.memo_issues:
+            continue
+        looked_at = '%s:%s' % (nf.rel, nf.qualname) in ctx.functions
+        if not looked_at and not (err is not None and key not in before):
+            continue          # normalised while discovering methods, not analysed by this property
+        for node, table, ktext, missing in nf.memo_issues:
+            n_memo += 1
+            ctx.ob('memo-key', nf, node, False,
+                   'the memo table `%s` is keyed by `%s`, which does not determine the memoised value: the value also depends on %s, so the '
+                   'result computed for one iteration is silently reused for another' % (table, ktext, missing))
+    if err is not None and not n_memo:
+        raise err
+    if err is not None:
+        ctx.note('analysis stopped early (%s); the memo-key finding above is reported on its own' % err)
     return ctx
 
 
